@@ -161,7 +161,14 @@ def check_object(ctx, obj, version, route, rng, full_lattice=False, type_name=No
             ctx.violation("serialize-raised", "re-serialize raised %s" % type(e).__name__, {"options": kw, "text": text[:2000]})
             continue
         if text2 != text:
-            ctx.violation("text-not-reproduced", "%s %s: second serialisation differs from the first" % (version, type_name),
+            try:
+                with warnings.catch_warnings():
+                    warnings.simplefilter("ignore")
+                    plain_ok = stix2.parse(base_text, allow_custom=True).serialize() == base_text
+            except Exception:
+                plain_ok = False
+            ctx.violation("text-not-reproduced" + (":pretty-only" if plain_ok and o["pretty"] else ""),
+                          "%s %s: second serialisation differs from the first" % (version, type_name),
                           {"version": version, "route": route, "options": kw, "first": text[:2500], "second": text2[:2500]})
         # same JSON value as the default text, up to default-valued optional properties
         ctx.ev()
@@ -306,9 +313,34 @@ def wl_custom(ctx, rng, i):
     import stix2
     ver = VERSIONS[i % 2]
     g = ObjGen(rng, ver, hostile=True, ts_max_digits=6, huge_ints=(i % 3 == 0))
-    kind = i % 7
+    kind = i % 11
+    special = None
     try:
-        if kind == 0:
+        if kind == 7 and ver == "2.1":
+            # types declared with extension_name=: their own extension entry is part of the JSON form
+            o = gcustom.gadget21(g) if i % 4 < 2 else gcustom.probe21(g, with_id=(i % 8 < 4))
+        elif kind == 8 and ver == "2.1":
+            # toplevel-property extensions, registered or not; through the constructor the entry may be an instance of the registered class
+            o = gcustom.toplevel21(g, rng.choice(["a", "b", "ab", "ba", "u", "au", "ua"]))
+            special = "toplevel"
+        elif kind == 9:
+            # custom properties given both ways at once: as keyword arguments and through custom_properties
+            o = g.make("identity", "random", granular=False)
+            for n in rng.sample(["x_alpha", "x_beta", "x_gamma", "x_zeta", "x_a1", "x_zz"], 4):
+                o[n] = rng.choice([1, "s", [1, 2], {"k": 1}])
+            if ver == "2.1" and rng.random() < 0.4:
+                o.setdefault("extensions", {})[gcustom.TOPLEVEL_UNREGISTERED] = {"extension_type": "toplevel-property-extension"}
+            special = "both-ways"
+        elif kind >= 7:
+            o = g.make("identity", "random")
+            # sibling dictionaries which share a key and its value; digit-like keys which are no numbers
+            v = rng.choice(["X", 1, True, "d"])
+            names = rng.sample(["name", "description", "alpha", "zeta", "beta", "gamma"], 3)
+            sib = {rng.choice(["fr", "zz"]): {names[0]: v}, rng.choice(["de", "aa"]): {names[0]: v, names[1]: "d"}, "mm": {names[2]: 2, names[0]: v, names[1]: "d"}}
+            o["x_siblings"] = dict(rng.sample(sorted(sib.items()), len(sib)))
+            if rng.random() < 0.3:
+                o["x_siblings"]["mm"][rng.choice(["\u00b2", "\u0663", "1", "01"])] = 0
+        elif kind == 0:
             o = gcustom.widget(g)
         elif kind == 1:
             o = gcustom.marking_definition(g)
@@ -339,7 +371,10 @@ def wl_custom(ctx, rng, i):
     except KeyError:
         ctx.skip("kind not available for this version")
         return
-    obj = build(ctx, ver, o, "parse" if i % 3 else "constructor", rng)
+    if special and i % 3:
+        obj = build_special(ctx, ver, o, special, rng)
+    else:
+        obj = build(ctx, ver, o, "parse" if i % 3 else "constructor", rng)
     if obj is None:
         return
     if isinstance(obj, dict):
@@ -347,6 +382,50 @@ def wl_custom(ctx, rng, i):
         return
     check_object(ctx, obj, ver, "custom", rng, full_lattice=(i % 10 == 0))
     ctx.count("custom_objects")
+    if special:
+        ctx.count("custom_objects_" + special)
+
+
+def build_special(ctx, version, o, special, rng):
+    """Constructor routes the generic one does not take: extension entries as instances of their registered class with values still to be
+    cleaned; custom properties split between keyword arguments and custom_properties."""
+    import stix2
+    from .c02 import cls_for
+    kw = native.to_native(version, o, rng)
+    try:
+        with warnings.catch_warnings():
+            warnings.simplefilter("ignore")
+            if special == "toplevel":
+                reg = gcustom.ensure_registered()
+                ext = dict(kw.get("extensions", {}))
+                for key, name in ((gcustom.TOPLEVEL_A, "toplevel-a"), (gcustom.TOPLEVEL_B, "toplevel-b")):
+                    if key in ext and rng.random() < 0.6:
+                        ext[key] = reg[("2.1", name)]()          # an instance, as deepcopy / new_version hand it on
+                        ctx.count("extension_entries_as_instances")
+                kw["extensions"] = ext
+                # values in forms the property has to clean: text for an integer, a datetime for a timestamp, one string for a list
+                if "rank" in kw and rng.random() < 0.5:
+                    kw["rank"] = str(kw["rank"])
+                if isinstance(kw.get("seen_at"), str) and rng.random() < 0.7:
+                    kw["seen_at"] = native.dt_from_text(kw["seen_at"], rng)
+                if isinstance(kw.get("aliases"), list) and len(kw["aliases"]) == 1 and rng.random() < 0.5:
+                    kw["aliases"] = kw["aliases"][0]
+                if "grade" in kw and rng.random() < 0.5:
+                    kw["grade"] = str(kw["grade"])
+                return cls_for(version, o["type"])(allow_custom=True, **kw)
+            # both ways
+            names = [n for n in kw if n.startswith("x_")]
+            rng.shuffle(names)
+            cp = {n: kw.pop(n) for n in names[:rng.randrange(1, len(names))]}
+            extra = {}
+            if gcustom.TOPLEVEL_UNREGISTERED in kw.get("extensions", {}):
+                extra, cp["aaa_area"] = {"zzz_zone": 1}, 2
+            ctx.count("custom_properties_given_both_ways")
+            return cls_for(version, o["type"])(allow_custom=True, custom_properties=cp, **kw, **extra)
+    except Exception as e:
+        ctx.skip("construction refused (%s) -- C03's subject, not round trip" % type(e).__name__)
+        ctx.count("construction_refused")
+        return None
 
 
 def sco20_slots():
